@@ -34,7 +34,7 @@ GEN_FILES = ["GenSplit"]
 DRIVERS = ["split"]
 THEOREMS = ["C04_expand_compress", "C04_compress_wf", "C04_split_no_panic", "C04_split_exact",
             "C04_translation_exact", "C04_split_exact_decidable", "C04_unkept_line_unrecorded",
-            "C04_carry", "C04_carry_needs_pathspec",
+            "C04_carry", "C04_carry_precommit_runs", "C04_carry_needs_pathspec",
             "C04_deletion_fixed", "C04_modify_fixed", "C04_hidden_refuted",
             "C04_nonvacuous", "C04_nonvacuous_edits_above"]
 CLAIM = {
@@ -488,6 +488,93 @@ def gen_carry(r):
     return {"name": "carry", "base": base, "ai": ai, "final": final, "author": author, "steps": steps}
 
 
+def corpus_carry_edit():
+    """seed-shaped: partial commit by hunk, a human checkpoint of the file (a pre-edit hook with no agent
+    edit after it), then a person inserts three lines above the carried lines, then the file is committed"""
+    f = "f.txt"
+    base = {f: list(range(1, 11)), "README": [91]}
+    m = [101, 102] + list(range(1, 11)) + [103, 104]
+    c1 = [101, 102] + list(range(1, 11))
+    w2 = [101, 102] + list(range(1, 7)) + [201, 202, 203] + list(range(7, 11)) + [103, 104]
+    author = {101: "s1", 102: "s1", 103: "s1", 104: "s1", 201: "H", 202: "H", 203: "H"}
+    return {"name": "carry-edit-demo", "base": base, "ai": [("s1", f, m)], "final": {f: w2}, "author": author,
+            "steps": [{"kind": "commit", "stage": {f: c1}}, {"kind": "hcp_f", "paths": [f]},
+                      {"kind": "write", "file": f, "content": w2}, {"kind": "commit", "stage": {f: w2}}]}
+
+
+def gen_carry_edit(r):
+    """one file f with AI lines of s1 committed by hunk; between the partial commit and the commit of the rest:
+    human checkpoints of f (with / without an agent edit after them), un-checkpointed edits by a person that
+    shift / do not shift the carried lines, agent edits of another file.  A person's shifting edit is only
+    generated after a checkpoint of f on the new HEAD (the anchor of the positional INITIAL claims; without it
+    the scenario would be in the known class C03-K2)."""
+    ctr = [100]
+
+    def fresh(a, author):
+        ctr[0] += 1
+        author[ctr[0]] = a
+        return ctr[0]
+    f, o = "f.txt", "o.txt"
+    author = {}
+    base = {f: list(range(1, r.range(4, 10) + 1)), o: [81, 82], "README": [91]}
+    cur = list(base[f])
+    runs = []
+    for where in r.shuffle(["top", "mid", "bottom"])[:r.range(2, 3)]:
+        q = 0 if where == "top" else (len(cur) if where == "bottom" else r.range(1, max(1, len(cur) - 1)))
+        new = [fresh("s1", author) for _ in range(r.range(1, 3))]
+        cur[q:q] = new
+        runs.append(new)
+    m = list(cur)
+    left = r.below(len(runs))                     # at least this run is left out; at least one is staged
+    staged = set()
+    for k, run in enumerate(runs):
+        if k != left and (r.chance(1, 2) or not staged):
+            staged.update(run)
+    if not staged:
+        staged.update(runs[(left + 1) % len(runs)])
+    bf = set(base[f])
+    c1 = [x for x in m if x in bf or x in staged]
+    steps = [{"kind": "commit", "stage": {f: c1}}]
+    carried = [x for x in m if x not in bf and x not in staged]
+    work_f, work_o = list(m), list(base[o])
+    anchored = False
+    for _ in range(r.range(1, 4)):
+        ev = r.weighted([(4, "hcp_f"), (4, "shift"), (2, "noshift"), (2, "ai_other"), (2, "ai_f"), (1, "hcp_all")])
+        if ev == "hcp_f":
+            steps.append({"kind": "hcp_f", "paths": [f]})
+            anchored = True
+        elif ev == "hcp_all":
+            steps.append({"kind": "hcp_f", "paths": None})
+            anchored = True
+        elif ev == "ai_other":
+            work_o = work_o + [fresh("s2", author)]
+            steps.append({"kind": "ai_edit", "session": "s2", "file": o, "content": list(work_o)})
+        elif ev == "ai_f":
+            q = r.range(0, len(work_f))
+            work_f[q:q] = [fresh("s2", author) for _ in range(r.range(1, 2))]
+            steps.append({"kind": "ai_edit", "session": "s2", "file": f, "content": list(work_f)})
+            anchored = True
+        elif ev == "shift":
+            if not anchored:
+                steps.append({"kind": "hcp_f", "paths": [f]})
+                anchored = True
+            first = min(work_f.index(x) for x in carried)
+            q = r.range(0, first)
+            work_f[q:q] = [fresh("H", author) for _ in range(r.range(1, 3))]
+            steps.append({"kind": "write", "file": f, "content": list(work_f)})
+        else:
+            work_f = work_f + [fresh("H", author) for _ in range(r.range(1, 2))]
+            steps.append({"kind": "write", "file": f, "content": list(work_f)})
+    steps.append({"kind": "commit", "stage": {f: list(work_f)}})
+    if work_o != base[o]:
+        steps.append({"kind": "commit_all"})
+    final = {f: list(work_f)}
+    if work_o != base[o]:
+        final[o] = list(work_o)
+    return {"name": "carry-edit", "base": base, "ai": [("s1", f, m)], "final": final, "author": author, "steps": steps}
+
+
+
 def note_by_file(note):
     out = {}
     if note is not None:
@@ -521,6 +608,23 @@ def run_carry(args):
                     sim.realgit("add", f)
                     sim.write(f, txt(work[f]))
                     tree[f] = list(content)
+            elif k == "commit_all":
+                sim.realgit("add", "-A")
+                for f in work:
+                    tree[f] = list(work[f])
+            elif k == "hcp_f":
+                sim.checkpoint_human(st["paths"])
+                continue
+            elif k == "write":
+                work[st["file"]] = list(st["content"])
+                sim.write(st["file"], txt(st["content"]))
+                continue
+            elif k == "ai_edit":
+                sim.checkpoint_human([st["file"]])
+                work[st["file"]] = list(st["content"])
+                sim.write(st["file"], txt(st["content"]))
+                sim.checkpoint_ai(st["session"], [st["file"]], tool=TOOL)
+                continue
             elif k == "hedit":
                 work["h.txt"] = work["h.txt"] + [st["id"]]
                 author[st["id"]] = "H"
@@ -546,9 +650,10 @@ def run_carry(args):
             head = sim.head()
             texts_ok = all(sim.file_at(head, f) == txt(ids) for f, ids in tree.items())
             commits.append({"kind": k, "before": before, "after": {f: list(v) for f, v in tree.items()},
+                            "work": {f: list(v) for f, v in work.items()},
                             "note": {f: {h: sorted(s) for h, s in hs.items()} for f, hs in note_by_file(sim.note(head)).items()},
                             "texts_ok": texts_ok})
-        return {"idx": idx, "name": sc["name"], "commits": commits, "final": sc["final"],
+        return {"idx": idx, "name": sc["name"], "commits": commits, "final": {f: list(work[f]) for f in sc["final"]},
                 "author": {str(k): v for k, v in author.items()}, "scenario": sc, "log": sim.log}
     finally:
         shutil.rmtree(sim.base, ignore_errors=True)
@@ -754,7 +859,9 @@ def run(ctx):
                 n_sc_sys += 1
     # ---------- C3b: carry across 2-4 commits by file and by hunk, unrelated commits in between
     n_carry = 64 if quick else 1500
-    cscen = [corpus_carry()] + [gen_carry(r.fork(f"carry{i}")) for i in range(n_carry)]
+    n_cedit = 48 if quick else 1500
+    cscen = [corpus_carry(), corpus_carry_edit()] + [gen_carry(r.fork(f"carry{i}")) for i in range(n_carry)] \
+        + [gen_carry_edit(r.fork(f"cedit{i}")) for i in range(n_cedit)]
     cres = C.parallel_map(run_carry, [(ctx.scratch, i, s) for i, s in enumerate(cscen)])
     cspec_in, ckeys = [], []
     for x in cres:
@@ -764,7 +871,7 @@ def run(ctx):
         for j, cm in enumerate(x["commits"]):
             for f_, cf in cm["after"].items():
                 if f_ in x["final"] and cm["before"].get(f_) != cf:
-                    pf, wf = cm["before"].get(f_, []), x["final"][f_]
+                    pf, wf = cm["before"].get(f_, []), cm["work"][f_]
                     attrs = [[i, i, C.cps(session_hash(TOOL, author[y]))] for i, y in enumerate(wf, 1) if author.get(y, "H") != "H"]
                     key = f"{x['idx']}:{j}:{f_}"
                     ckeys.append(key)
@@ -785,6 +892,13 @@ def run(ctx):
         kinds = [st["kind"] for st in x["scenario"]["steps"]]
         if "aicommit" in kinds:
             cdist["ai_checkpoint_between"] += 1
+        if x["name"].startswith("carry-edit"):
+            cdist["carry_edit_scenarios"] = cdist.get("carry_edit_scenarios", 0) + 1
+            st_ = x["scenario"]["steps"]
+            if any(t["kind"] == "hcp_f" for t in st_) and any(t["kind"] == "write" for t in st_) \
+                    and not any(t["kind"] == "ai_edit" for t in st_):
+                cdist["human_checkpoint_then_person_edit_no_ai_checkpoint"] = \
+                    cdist.get("human_checkpoint_then_person_edit_no_ai_checkpoint", 0) + 1
         fails, classes = [], set()
         recorded = {}
         pending_new = set()
@@ -818,8 +932,8 @@ def run(ctx):
                 key = f"{x['idx']}:{j}:{f_}"
                 if key in cspec:
                     fl = fields(cspec[key])
-                    classes |= classify_known(cm["before"].get(f_, []), cf, x["final"][f_],
-                                              {y: author.get(y, "H") for y in set(cm["before"].get(f_, [])) | set(cf) | set(x["final"][f_])},
+                    classes |= classify_known(cm["before"].get(f_, []), cf, cm["work"][f_],
+                                              {y: author.get(y, "H") for y in set(cm["before"].get(f_, [])) | set(cf) | set(cm["work"][f_])},
                                               fl["nohidden"][0] == 1)
                     pn, _ = parse_out(cspec[key])
                     pn = {a: set(v) for a, v in pn.items() if v}
